@@ -2,7 +2,7 @@
    Statements only.  (a) the multiply-back checkers by which every row / solve returned by the library is judged are
    complete oracles (sound, and unique answer for a non-singular matrix); singularity is decided by the verified
    elimination.  (b) representation level: see Fac/Factor.v (check_repr_sound). *)
-From QSX Require Import Fac.GaussSound Fac.FactorSound.
+From QSX Require Import Fac.GaussSound Fac.FactorSound Fac.FTUpdateSound.
 Local Open Scope Q_scope.
 
 (* an accepted row IS row i of the inverse computed by the verified elimination *)
@@ -140,6 +140,90 @@ Definition ex_repr_upd : repr :=
 Example C13_check_repr_example_update : check_repr ex_repr_upd [[2;1;0];[1;0;1];[0;5;4]] = true.
 Proof. vm_compute. reflexivity. Qed.
 
-(* (c) the Forrest-Tomlin update as an operation on repr (update_preserves) is NOT modelled: the update routine is
-   explored (checks/C13.py: after every ILLfactor_update the dumped representation must pass check_repr for the
-   matrix with the replaced column, and the model's walk must reproduce the library's solves). *)
+(* (c) the Forrest-Tomlin column replacement as an operation on repr (Fac/FTUpdate.v: [spike] = ILLfactor_ftran_update's
+   upd, [update_spike] / [update] = ILLfactor_update without its space management, dense-path algebra; the sparse path
+   (serow_process) computes the same multipliers and the same new row in another order and is tied by values).
+   [represents r B] is the conclusion of check_repr_sound: ftran solves B x = b and btran solves y B = b for EVERY b.
+   [struct_ok r] is the checkable invariant of the U part: rperm / cperm are permutations, U by columns and by rows are
+   the same matrix, upper triangular in rank order, every line stores its non-zero pivot first.
+   Tie: checks/C13.py runs the extracted [struct_ok] on every dump, the extracted [update_spike] on the dump before every
+   ILLfactor_update with the library's own spike, and compares the result with the next dump entry by entry (lines as
+   pivot + set of entries, row etas as sets) and by solves. *)
+
+(* the two U phases are exact triangular solves *)
+Theorem C13_usolve_exact :
+  forall r, struct_ok r = true -> forall v i, (i < f_dim r)%nat ->
+    sumn (f_dim r) (fun j => Ucf r i j * qnth (usolve r v) j) == qnth v i.
+Proof. intros r S. apply usolve_spec. apply struct_ok_facts. exact S. Qed.
+Print Assumptions C13_usolve_exact.
+
+Theorem C13_usolve_t_exact :
+  forall r, struct_ok r = true -> forall c j, (j < f_dim r)%nat ->
+    sumn (f_dim r) (fun i => qnth (usolve_t r c) i * Urf r i j) == qnth c j.
+Proof. intros r S. apply usolve_t_spec. apply struct_ok_facts. exact S. Qed.
+Print Assumptions C13_usolve_t_exact.
+
+(* update_preserves: an accepted update of a representation of B represents B with column k replaced by a,
+   and keeps the invariant *)
+Theorem C13_update_preserves :
+  forall r B k a r1, struct_ok r = true -> represents r B -> (k < f_dim r)%nat -> update r k a = Some r1 ->
+    struct_ok r1 = true /\ represents r1 (replace_col (f_dim r) B k a) /\ f_dim r1 = f_dim r.
+Proof. exact update_preserves. Qed.
+Print Assumptions C13_update_preserves.
+
+(* the same for the spike handed over as any sparse vector denoting [spike r a] (the sparse path of
+   ILLfactor_ftran_update can list explicit zeros, which move rank_r) *)
+Theorem C13_update_spike_preserves :
+  forall r B k s a r1, struct_ok r = true -> represents r B -> (k < f_dim r)%nat ->
+    ind_lt (f_dim r) s = true -> (forall i, (i < f_dim r)%nat -> coefAt s i == qnth (spike r a) i) ->
+    update_spike r k s = Some r1 ->
+    struct_ok r1 = true /\ represents r1 (replace_col (f_dim r) B k a) /\ f_dim r1 = f_dim r.
+Proof. exact update_spike_preserves. Qed.
+Print Assumptions C13_update_spike_preserves.
+
+(* the singular case: the update is refused (E_UPDATE_SINGULAR_ROW / _COL in the C code) exactly when the matrix with the
+   replaced column is singular; the new pivot is (B^-1 a)_k times the old one *)
+Theorem C13_update_none_singular :
+  forall r B k a, struct_ok r = true -> represents r B -> (k < f_dim r)%nat -> update r k a = None ->
+    ~ nonsingular (f_dim r) (replace_col (f_dim r) B k a).
+Proof. exact update_none_singular. Qed.
+Print Assumptions C13_update_none_singular.
+
+Theorem C13_update_some_iff_nonsingular :
+  forall r B k a, struct_ok r = true -> represents r B -> (k < f_dim r)%nat ->
+    ((exists r1, update r k a = Some r1) <-> nonsingular (f_dim r) (replace_col (f_dim r) B k a)).
+Proof. exact update_some_iff_nonsingular. Qed.
+Print Assumptions C13_update_some_iff_nonsingular.
+
+Theorem C13_update_new_pivot :
+  forall r B k a r1, struct_ok r = true -> represents r B -> (k < f_dim r)%nat -> update r k a = Some r1 ->
+    let p := index_of k (f_cperm r) in
+    Ucf r1 (rk r p) k == Ucf r (rk r p) k * qnth (ftran_dense r a) k.
+Proof. exact update_new_pivot. Qed.
+Print Assumptions C13_update_new_pivot.
+
+(* every update history: starting from a dump accepted by check_repr and struct_ok, the representation reached by any
+   sequence of accepted replacements solves exactly with the matrix the sequence ends in *)
+Theorem C13_update_history_preserves :
+  forall h r B r1, struct_ok r = true -> represents r B -> (forall ka, In ka h -> (fst ka < f_dim r)%nat) ->
+    update_hist r h = Some r1 ->
+    struct_ok r1 = true /\ represents r1 (replace_hist (f_dim r) B h) /\ f_dim r1 = f_dim r.
+Proof. exact update_history_preserves. Qed.
+Print Assumptions C13_update_history_preserves.
+
+Theorem C13_checked_history_solves :
+  forall r B h r1, struct_ok r = true -> check_repr r B = true -> (forall ka, In ka h -> (fst ka < f_dim r)%nat) ->
+    update_hist r h = Some r1 ->
+    forall b, is_solution (f_dim r) (replace_hist (f_dim r) B h) (ftran_dense r1 b) b /\
+              is_left_solution (f_dim r) (replace_hist (f_dim r) B h) (btran r1 b) b.
+Proof. exact checked_history_solves. Qed.
+Print Assumptions C13_checked_history_solves.
+
+(* hypotheses satisfiable and the model agrees with the library on the recorded instance: the dump ex_repr passes struct_ok;
+   the model's update with column 1 := (1,0,5) is, entry by entry (normal form), the library's next dump ex_repr_upd;
+   replacing column 1 by a copy of column 0 is refused *)
+Example C13_update_example :
+  struct_ok ex_repr = true /\
+  match update ex_repr 1 [1; 0; 5] with Some r1 => repr_same_u r1 ex_repr_upd | None => false end = true /\
+  update ex_repr 1 [2; 1; 0] = None.
+Proof. vm_compute. repeat split. Qed.
